@@ -12,6 +12,7 @@ def main():
     reg = Registry()
     reg.load(*mods)
     v = Verifier(Repo(), reg, Spec)
+    v.inner_jobs = 16
     from pyvc.verify import expand_keys
     allk=[]
     for pid in sorted({p for c in reg.contracts.values() for p in c.properties}):
